@@ -843,6 +843,7 @@ package psatoken
 //@   ensures[err] ret1 != nil ==> ret0 == nil
 //@   ensures[malformed] !cborSelOK(bytesVal(buf)) ==> ret1 != nil
 //@   ensures[null] cborIsNull(bytesVal(buf)) ==> ret1 != nil
+//@   ensures[map] ret1 == nil ==> cborTopIsMap(bytesVal(buf))
 //@   ensures[unregistered] cborSelOK(bytesVal(buf)) && !inDom(profilesRegister, cborProfile(bytesVal(buf))) ==> ret1 != nil
 //@   ensures[dispatch] ret1 == nil ==> cborSelOK(bytesVal(buf)) && !cborIsNull(bytesVal(buf)) && inDom(profilesRegister, cborProfile(bytesVal(buf))) && ret0 != nil && fresh(ret0) && dynType(ret0) == profClaimsType(profilesRegister[cborProfile(bytesVal(buf))].Profile)
 //@   ensures[p1] ret1 == nil && (cborProfile(bytesVal(buf)) == "" || cborProfile(bytesVal(buf)) == "PSA_IOT_PROFILE_1") ==> typeIs(ret0, *P1Claims) && wfP1(*ret0.(*P1Claims)) && ret0.(*P1Claims).CanonicalProfile == "PSA_IOT_PROFILE_1" && specFreshBytesP1(*ret0.(*P1Claims))
